@@ -638,6 +638,22 @@ class FpPoint:
                 return 0
             if name in ("cos", "cosh") and vals[0] == 0:
                 return 1
+            if name in ("sin", "cos", "tan"):
+                # one random half-angle parameter u per argument value keeps sin^2+cos^2=1 and tan=sin/cos exact
+                u = self._h("fn", "tan_half", vals)
+                den = (1 + u * u) % p
+                if name == "sin":
+                    if den == 0:
+                        raise NonResidue("trig")
+                    return 2 * u * pow(den, p - 2, p) % p
+                if name == "cos":
+                    if den == 0:
+                        raise NonResidue("trig")
+                    return (1 - u * u) * pow(den, p - 2, p) % p
+                d2 = (1 - u * u) % p
+                if d2 == 0:
+                    raise NonResidue("trig")
+                return 2 * u * pow(d2, p - 2, p) % p
         return self._h("fn", name, vals)
 
     def eval(self, n) -> int:
@@ -960,6 +976,8 @@ def diff(n, var: str, assume_real_identity: bool = True, memo=None) -> Node:
                     r = mul(du, fn("cos", u))
                 elif name == "cos":
                     r = neg(mul(du, fn("sin", u)))
+                elif name == "tan":
+                    r = mul(du, add(1, mul(fn("tan", u), fn("tan", u))))
                 elif name in ("Re", "conj") and assume_real_identity:
                     r = du
                 else:
